@@ -194,16 +194,16 @@ func LongHarness(mode Mode) mc.Harness {
 			deepBetas := mc.Pick(r, []int{0, 1, 3, 10, 30, 100, 981, 985, 990}, []int{0, 1, 2, 3, 5, 10, 20, 40, 60, 100, 155, 970, 981, 985, 990, 995})
 			for _, b := range deepBetas {
 				for _, p := range [][2]string{{"asc", "asc"}, {"desc", "desc"}, {"zigzag", "inside"}, {"inside", "zigzag"}} {
-					n := mc.Pick(r, 1100, 6000)
+					n := mc.Pick(r, 1100, 3000)
 					if b >= 970 {
-						n = mc.Pick(r, 1700, 6000)
+						n = mc.Pick(r, 1700, 3000)
 					}
 					fams = append(fams, fam{LongCfg{Beta: b, N: n, Fill: p[0], Drain: p[1], Depth: mode.Depth, Set: mode.Set}, 0})
 				}
 			}
 			if !r.Quick() && mode.Depth {
-				fams = append(fams, fam{LongCfg{Beta: 999, N: 24000, Fill: "asc", Drain: "asc", Depth: true}, 0},
-					fam{LongCfg{Beta: 999, N: 24000, Fill: "desc", Drain: "desc", Depth: true}, 0})
+				fams = append(fams, fam{LongCfg{Beta: 999, N: 22000, Fill: "asc", Drain: "asc", Depth: true}, 0},
+					fam{LongCfg{Beta: 999, N: 22000, Fill: "desc", Drain: "desc", Depth: true}, 0})
 			}
 			var execs, steps int64
 			var byDev [4]int64
@@ -231,7 +231,7 @@ func LongHarness(mode Mode) mc.Harness {
 			r.Bound("betas", betas)
 			r.Bound("fill_drain_orders", pairs)
 			r.Bound("families", len(fams))
-			r.Bound("deep_histories", fmt.Sprintf("betas %v, N=%s, four fill/drain orders, no deviation", deepBetas, mc.Pick(r, "1100 (1700 for beta >= 970)", "6000")))
+			r.Bound("deep_histories", fmt.Sprintf("betas %v, N=%s, four fill/drain orders, no deviation", deepBetas, mc.Pick(r, "1100 (1700 for beta >= 970)", "3000")))
 			r.Bound("executions_by_deviations", byDev[:])
 			if mode.Depth {
 				r.Bound("min_slack_allowed_minus_actual_depth", minSlack)
